@@ -18,6 +18,15 @@ import yaml
 from vlib import common
 
 LEVEL = "exploration"
+MANIFEST = {
+    "category": "exploration",
+    "technique": "runtime contracts (icontract) on the real deep_update + reference-precedence oracle over builder/CLI executions and context histories",
+    "text": "icontract post-conditions on the real deep_update (result equals a 15-line reference merge incl. DefaultValue rules; source "
+            "unchanged) evaluated on every (recursive) call made by random merge histories, by LanguageContextBuilder.create() with 0-3 "
+            "YAML files + overrides, and by the real CLI (--list-configuration read back); histories of 2-6 builders/contexts in one "
+            "process re-read every earlier context after each creation. Sampled, not exhaustive.",
+    "note": "Trusts the reference merge and the documented language post-rules (Python forces asserts; C++ std shorthand applies its group as a unit).",
+}
 
 
 # ------------------------------------------------------------------------------------------------ reference
